@@ -63,7 +63,7 @@ theorem flatMap_chunk {α β} (l : List α) (g : α → List β) (k : Nat)
       rw [← List.drop_drop, List.drop_left' hx]
       exact ih (fun y hy => h y (by simp [hy])) j (by simpa using hj)
 
-theorem prodList_foldl (a : Nat) (l : List Nat) : l.foldl (· * ·) a = a * l.foldl (· * ·) 1 := by
+theorem prodList_foldl_perm (a : Nat) (l : List Nat) : l.foldl (· * ·) a = a * l.foldl (· * ·) 1 := by
   induction l generalizing a with
   | nil => simp
   | cons x t ih =>
@@ -74,7 +74,7 @@ theorem prodList_foldl (a : Nat) (l : List Nat) : l.foldl (· * ·) a = a * l.fo
 theorem prodList_cons (n : Nat) (t : List Nat) : prodList (n :: t) = n * prodList t := by
   unfold prodList
   simp only [List.foldl_cons]
-  rw [prodList_foldl]
+  rw [prodList_foldl_perm]
   simp
 
 /-- an array whose leading axis has `n` entries: shape `n :: tail`, `n * rowSize` scalars -/
